@@ -14,8 +14,8 @@ from .core import MachineryFailure, NCPU, sha
 
 # ------------------------------------------------------------------ target specs
 
-def spec(kind, name, options=None, sanitize=False, std=None, frac=1.0):
-    return {"kind": kind, "name": name, "options": dict(options or {}), "sanitize": sanitize, "std": std, "frac": frac}
+def spec(kind, name, options=None, sanitize=False, std=None, frac=1.0, flags=()):
+    return {"kind": kind, "name": name, "options": dict(options or {}), "sanitize": sanitize, "std": std, "frac": frac, "flags": list(flags)}
 
 
 def _build(job):
@@ -27,7 +27,7 @@ def _build(job):
     t0 = time.time()
     try:
         if sp["kind"] == "c":
-            tg = CTarget(scratch, types, options=sp["options"], sanitize=sp["sanitize"], uid=uid)
+            tg = CTarget(scratch, types, options=sp["options"], sanitize=sp["sanitize"], uid=uid, extra_flags=[f.replace("@NS@", "vc" + uid) for f in sp.get("flags", ())])
         else:
             tg = CppTarget(scratch, types, options=sp["options"], sanitize=sp["sanitize"], std=sp["std"] or "c++14", uid=uid)
         return ("ok", tg, time.time() - t0)
